@@ -1,6 +1,7 @@
 package props
 
 import (
+	"errors"
 	"fmt"
 	"time"
 
@@ -260,11 +261,12 @@ func c05Run(r *core.Run) {
 		}
 	}
 	isExpiredErr := func(err error) bool {
-		if v, ok := err.(saml2.ErrVerification); ok {
-			err = v.Cause
+		var ev saml2.ErrVerification
+		if errors.As(err, &ev) && ev.Cause != nil {
+			err = ev.Cause
 		}
-		iv, ok := err.(saml2.ErrInvalidValue)
-		return ok && iv.Reason == saml2.ReasonExpired
+		var iv saml2.ErrInvalidValue
+		return errors.As(err, &iv) && iv.Reason == saml2.ReasonExpired
 	}
 	if expired {
 		if out.OK() {
